@@ -5,6 +5,7 @@ package main
 import (
 	"fmt"
 	"go/types"
+	"regexp"
 	"sort"
 	"strings"
 )
@@ -59,7 +60,15 @@ func newWorld() *World {
 	return w
 }
 
-func (w *World) typeString(t types.Type) string { return types.TypeString(t, w.qualifier) }
+var byteRe = regexp.MustCompile(`\bbyte\b`)
+var runeRe = regexp.MustCompile(`\brune\b`)
+
+func (w *World) typeString(t types.Type) string {
+	s := types.TypeString(t, w.qualifier)
+	s = byteRe.ReplaceAllString(s, "uint8")
+	s = runeRe.ReplaceAllString(s, "int32")
+	return s
+}
 
 func isSigned(t types.Type) bool {
 	if b, ok := t.Underlying().(*types.Basic); ok {
@@ -341,6 +350,18 @@ func (w *World) Declare(key, decl string) {
 // Preamble emission. memSorts / boxSorts are the element sorts for which heap maps exist.
 
 func (w *World) Preamble(body string) string {
+	// extra declarations that the body uses may themselves refer to literals
+	for changed := true; changed; {
+		changed = false
+		for i, d := range w.extraDecls {
+			k := w.extraKeys[i]
+			base := strings.TrimSuffix(strings.TrimSuffix(k, "="), "!nil")
+			if strings.Contains(body, base) && !strings.Contains(body, d) {
+				body += "\n" + d
+				changed = true
+			}
+		}
+	}
 	used := func(name string) bool { return strings.Contains(body, name) }
 	var b strings.Builder
 	b.WriteString("(declare-datatypes ((Slice 0)) (((mk_slice (s_reg Int) (s_off (_ BitVec 64)) (s_len (_ BitVec 64)) (s_cap (_ BitVec 64))))))\n")
